@@ -24,20 +24,45 @@ class TNorm(a4_shape.Norm):
             cal = self.X.by_pat.get(e.get("cpat"))
             if obj is not None and obj.get("k") == "This" and cal is not None and cal.get("body") and cal is not self.fn:
                 body = cal["body"].get("s", []) if cal["body"].get("k") == "Block" else []
-                # `if (param) return A; return B;` with a constant argument selects one return
-                if len(body) == 2 and body[0].get("k") == "If" and body[1].get("k") == "Return" and len(cal["params"]) == len(e.get("args", [])):
-                    c = strip(body[0]["c"])
+                # a helper that only selects between return expressions by tests of constant arguments: pick the return
+                if len(cal["params"]) == len(e.get("args", [])):
                     pidx = {p["d"]: i for i, p in enumerate(cal["params"])}
-                    if c.get("k") == "Ref" and c.get("d") in pidx:
-                        a = strip(e["args"][pidx[c["d"]]])
-                        cv = a.get("b") if a.get("k") == "Bool" else a.get("v")
-                        if cv is not None:
-                            t = body[0]["t"]
-                            ts = t.get("s", []) if t.get("k") == "Block" else [t]
-                            if cv and len(ts) == 1 and ts[0].get("k") == "Return":
-                                body = [ts[0]]
-                            elif not cv:
-                                body = [body[1]]
+
+                    def cval(c):
+                        c = strip(c)
+                        if c.get("k") == "Un" and c.get("op") == "!":
+                            v = cval(c["e"])
+                            return None if v is None else (not v)
+                        if c.get("k") == "Ref" and c.get("d") in pidx:
+                            a = strip(e["args"][pidx[c["d"]]])
+                            v = a.get("b") if a.get("k") == "Bool" else a.get("v")
+                            return None if v is None else bool(v)
+                        return None
+
+                    def pick(stmts):
+                        for st in stmts:
+                            if st.get("k") == "Return":
+                                return st
+                            if st.get("k") == "Block":
+                                r = pick(st.get("s", []))
+                                if r is not None:
+                                    return r
+                                continue
+                            if st.get("k") == "If":
+                                v = cval(st["c"])
+                                if v is None:
+                                    return False
+                                br = st.get("t") if v else st.get("e")
+                                if br is not None:
+                                    r = pick(br.get("s", []) if br.get("k") == "Block" else [br])
+                                    if r is not None:
+                                        return r
+                                continue
+                            return False
+                        return None
+                    r = pick(body)
+                    if r:
+                        body = [r]
                 if len(body) == 1 and body[0].get("k") == "Return" and body[0].get("e") is not None and len(cal["params"]) == len(e.get("args", [])):
                     saved = self.inline
                     self.inline = dict(saved)
